@@ -54,7 +54,7 @@ func TestC05(t *testing.T) {
 			for l, k := range b.Labels {
 				s.LabelN("gen:"+l, k)
 				switch l {
-				case "field:rename", "field:recase", "field:nest", "field:automap", "field:dot", "field:method", "field:extra-ignore", "field:extra-missing", "field:recase-exact":
+				case "field:method-casefield", "field:rename", "field:recase", "field:nest", "field:automap", "field:dot", "field:method", "field:extra-ignore", "field:extra-missing", "field:recase-exact":
 					mech++
 				}
 			}
@@ -73,7 +73,7 @@ func TestC05(t *testing.T) {
 					SamePkg:       rapid.IntRange(0, 2).Draw(rt, "samepkg") == 0,
 					FieldSettings: true,
 					Defects:       rapid.IntRange(0, 1).Draw(rt, "defects"),
-					DefectKinds:   []string{"missing", "unexported", "ambiguous-case", "unknown-field", "ambiguous-automap"},
+					DefectKinds:   []string{"missing", "unexported", "ambiguous-case", "unknown-field", "ambiguous-automap", "ambiguous-method"},
 					Unexported:    true,
 					Methods:       true,
 					MaxFields:     5,
